@@ -197,6 +197,7 @@ def run_check(prop, tier, seed, replay=None):
     bad = vlib.forbidden_scan()
     if bad:
         raise vlib.MachineryError("forbidden tokens in the Coq development: " + "; ".join(bad[:10]))
+    golden = vlib.golden_check()
     proof = vlib.check_props(prop)
     # thorough tier: the compiled theorems and everything they depend on are re-checked by coqchk
     chk = vlib.coqchk_props(prop) if (tier == "thorough" and not replay and not proof["failed"]) else None
@@ -261,6 +262,7 @@ def run_check(prop, tier, seed, replay=None):
             "checker_cmd": proof["checker_cmd"], "trusted_base": TRUSTED_BASE,
             "theorems": proof["theorems"], "print_assumptions": proof["assumptions"],
             "proof_failed": proof["failed"]["where"] if proof["failed"] else None,
+            "extraction_golden": golden,
             "coqchk": chk if chk else "not run in this tier (thorough tier runs coqchk -o on the property's compiled theorems)",
             "evaluations": total_eval, "distinct_nontrivial": stats.get("distinct", 0),
             "rule": spec.rule, "samples": stats.get("samples", [])[:8] or ["(none)"],
